@@ -297,3 +297,7 @@ def j6_just_filled(ctx):
 
 
 RULES = [("A", a_audit), ("J1", j1_peek_then_next), ("J2", j2_flags), ("J3", j3_config), ("J4", j4_merging), ("J6", j6_just_filled)]
+
+
+def THOROUGH_EXTRA(ctx):
+    return run_witnesses(ctx, "W", ['W2ConfigImmutable'])
